@@ -333,7 +333,7 @@ def _generic(args, cfg, prop, tier, t0, known, open_f, quarantine, run_dir, scra
                 cmd = [fexe, "-runs=%d" % max(1, int(t["cases"] * args.scale)), "-seed=%d" % (args.seed * 100 + k + 1), "-max_len=%d" % t.get("max_len", 4096),
                        "-timeout=%d" % t.get("timeout", 30), "-rss_limit_mb=4000", "-print_final_stats=1", "-artifact_prefix=" + out + "/", work, shape]
                 worker_env[(mname, k)] = dict(os.environ, VT_FUZZ_TIER=tier, VT_FUZZ_SCRATCH=os.path.join(scratch, "%s-%d" % (mname, k)), VT_FUZZ_OUT=out,
-                                              VT_FUZZ_SHAPE_DIR=shape, VT_FUZZ_QUARANTINE=",".join(quarantine),
+                                              VT_FUZZ_SHAPE_DIR=shape, VT_FUZZ_QUARANTINE=",".join(quarantine), VT_FUZZ_DROP=",".join(m.get("drop_ops", [])),
                                               VT_FUZZ_OPTS=",".join(["%s=%s" % kv for kv in t.get("opt", {}).items()] +
                                                                     [PROGRAM_OPTS[i + 1] for i in range(0, len(PROGRAM_OPTS), 2)]))
                 os.makedirs(os.path.join(scratch, "%s-%d" % (mname, k)), exist_ok=True)
